@@ -1,15 +1,21 @@
+//! Checks on p2panda-sync's topic sync session and manager (C22, C23).
 use explorer::{Args, Report};
+
+mod c22;
+mod c23;
+mod fixtures;
+mod pipe;
 
 fn main() {
     let args = Args::parse();
     explorer::quiet_panics();
     let code = match args.property.as_str() {
-        // "Cxx" => cxx::run(Report::new(&args, "model_checking")),
+        "C22" => c22::run(Report::new(&args, "fault_enumeration")),
+        "C23" => c23::run(Report::new(&args, "model_checking")),
         other => {
             eprintln!("vh-syncmgr: unknown property {other}");
             2
         }
     };
-    let _ = Report::new(&args, "model_checking");
     std::process::exit(code);
 }
